@@ -16,7 +16,7 @@ CLAIMED = {
          "universal theorems over the model tied by K2/K3; emitted bounds tied by K2 on every bounded declarator form", "DESIGN.md 0 and 7 C05"),
  "C06": ("Coq: invalid boolean / option marker / enum word / non-UTF-8 rejected with the right Error for every word; union arm selection PARTIAL (semantics of emitted patterns tied by K2+K3, searched on every declared label)",
          "theorems over all 2^32 words (statements over N, not sweeps)", "DESIGN.md 7 C06"),
- "C07": ("Coq: every Rust keyword escaped by both regenerated tables, tables agree; rustc is the oracle: every corpus module compiled with both derive lines plus visitors naming every documented field/variant; wf_module PARTIAL",
+ "C07": ("Coq: every Rust keyword escaped by both regenerated tables, tables agree, C07_safe_name_never_a_keyword (for EVERY name the printed spelling is not a keyword, true/false for TRUE/FALSE aside), C07_every_type_has_its_impls; tables vs the real generator on every candidate spelling in every position (948 probe specifications); rustc is the oracle: every corpus module compiled with both derive lines plus visitors naming every documented field/variant; wf_module PARTIAL",
          "compilation is observed, not proved; the keyword lemma is re-proved against the regenerated tables on every run", "DESIGN.md 7 C07"),
  "C08": ("Coq: C08_views for every emitted module, type and input: every non-empty opaque leaf is a view into the input at the offset where its bytes lie; K3 compares real pointer offsets",
          "theorem holds for all inputs and all specifications; pointer identity is observed by the harness", "DESIGN.md 7 C08"),
